@@ -76,6 +76,8 @@ class FitSchedule(Contract):
             if ep == -1 and mi == -1:
                 continue
             res = _check_schedule((n_, bs, ep, mi, stop, lay, bool(i % 2), bool((i // 2) % 2)))[2]
+            if res is None and i % 5 == 0:          # the same configuration on an estimator that was fitted before (warm_start on / off)
+                res = _check_schedule((n_, bs, ep, mi, stop, lay, bool(i % 2), bool((i // 2) % 2), ("warm", "cold")[(i // 5) % 2]))[2]
             if res is not None:
                 key, what, rp = res
                 return {"confirmed": True, "key": key, "what": what, "replay": rp}
